@@ -588,6 +588,22 @@ Section FsLoader.
   Definition fs_uptodate_async (p : str) (mtime : N) : res bool :=
     run_in_executor (fun pm => fs_uptodate (fst pm) (snd pm)) (p, mtime).
 
+  (** Since /repo e2f7d6d the freshness callback is _is_current / _is_current_async:
+      the name must still resolve to the path the template was read from (a file
+      added to an earlier search path shadows it; the file may have gone), and
+      then the modification time decides.  The async half runs the sync half in
+      the default executor. *)
+  Definition fs_is_current (name p : str) (mtime : N) : res bool :=
+    match resolve_path name with
+    | Ok q => if str_eqb q p then fs_uptodate p mtime else Ok false
+    | LErr TemplateNotFoundError _ => Ok false
+    | LErr c t => LErr c t
+    | PyExc k => PyExc k
+    | OutOfFuel => OutOfFuel
+    end.
+  Definition fs_is_current_async (name p : str) (mtime : N) : res bool :=
+    run_in_executor (fun npm => fs_is_current (fst (fst npm)) (snd (fst npm)) (snd npm)) ((name, p), mtime).
+
   (** The same source up to the flavour of its callback. *)
   Definition fs_source_same (a b : fs_source) : Prop :=
     fs_text a = fs_text b /\ fs_name a = fs_name b /\ fst (fs_cb a) = fst (fs_cb b).
